@@ -805,7 +805,27 @@ func sumToString(fr *frame, a []value) value {
 		}
 		return mkStr(cconv.StringConverter.ToString(n))
 	}
-	return Str{Opaque: true, OTag: "tostring(" + valueTag(v) + ")"}
+	tag := "tostring(" + valueTag(v) + ")"
+	if t, ok := v.v.(*Term); ok && t.S.K == KBV && v.t != nil {
+		if b, isB := v.t.Underlying().(*types.Basic); isB && isInteger(b) {
+			// the decimal text of an integer: parsing it back gives the integer
+			_, signed := intWidth(b)
+			if m.intText == nil {
+				m.intText = map[string]*Term{}
+			}
+			m.intText[tag] = m.ctx.Resize(t, 64, signed)
+		}
+	}
+	return Str{Opaque: true, OTag: tag}
+}
+
+// textOfInt: the integer whose decimal text this (purely opaque) string is, if known.
+func (m *Machine) textOfInt(s Str) (*Term, bool) {
+	if !s.Opaque || len(s.R) != 0 {
+		return nil, false
+	}
+	t, ok := m.intText[s.OTag]
+	return t, ok
 }
 
 // valueTag describes an interface payload for the identity of opaque text.
@@ -866,21 +886,42 @@ func sumConv(kind string) extFn {
 				return m.mkTime(mkInt(64, t.Unix()), mkInt(64, int64(t.Nanosecond())))
 			}
 		}
-		// symbolic input: an arbitrary value of the result type (total function)
+		// symbolic input: an arbitrary value of the result type (a total function of the
+		// argument: converting the same text twice gives the same value)
+		var key string
+		if iv, isI := a[1].(iface); isI {
+			if sv, isS := iv.v.(Str); isS && (kind == "long" || kind == "int") {
+				if t, known := m.textOfInt(sv); known {
+					return t
+				}
+			}
+			key = "conv." + kind + "|" + valueTag(iv)
+			if r, hit := m.stubMemo[key]; hit {
+				return r
+			}
+		}
 		name := m.nondetName("conv." + kind)
+		var res value
 		switch kind {
 		case "int", "long", "duration":
-			return m.ctx.Var(name, SBV64)
+			res = m.ctx.Var(name, SBV64)
 		case "float":
-			return m.ctx.Var(name, SF32)
+			res = m.ctx.Var(name, SF32)
 		case "double":
-			return m.ctx.Var(name, SF64)
+			res = m.ctx.Var(name, SF64)
 		case "bool":
-			return m.ctx.Var(name, SBool)
+			res = m.ctx.Var(name, SBool)
 		default:
 			sec := m.ctx.Var(name, SBV64)
-			return m.mkTime(sec, mkInt(64, 0))
+			res = m.mkTime(sec, mkInt(64, 0))
 		}
+		if key != "" {
+			if m.stubMemo == nil {
+				m.stubMemo = map[string]value{}
+			}
+			m.stubMemo[key] = res
+		}
+		return res
 	}
 }
 
@@ -896,12 +937,27 @@ func sumParseInt(fr *frame, a []value) value {
 		}
 		return tuple{mkInt(64, v), iface{}}
 	}
-	// symbolic text: either it parses to some value or it does not
-	okv := m.ctx.Var(m.nondetName("strconv.ParseInt.ok"), SBool)
-	if m.branch(okv) {
-		return tuple{m.ctx.Var(m.nondetName("strconv.ParseInt.val"), SBV64), iface{}}
+	if t, ok := m.textOfInt(a[0].(Str)); ok && base == 10 && (bits == 64 || bits == 0) {
+		return tuple{t, iface{}}
 	}
-	return tuple{mkInt(64, 0), iface{t: errT, v: Str{Opaque: true, OTag: "parse-error"}}}
+	// symbolic text: either it parses to some value or it does not (a function of the
+	// text: parsing the same text twice gives the same answer)
+	key := fmt.Sprintf("ParseInt|%s|%d|%d", a[0].(Str).repr(), base, bits)
+	if r, hit := m.stubMemo[key]; hit {
+		return r
+	}
+	if m.stubMemo == nil {
+		m.stubMemo = map[string]value{}
+	}
+	okv := m.ctx.Var(m.nondetName("strconv.ParseInt.ok"), SBool)
+	var res value
+	if m.branch(okv) {
+		res = tuple{m.ctx.Var(m.nondetName("strconv.ParseInt.val"), SBV64), iface{}}
+	} else {
+		res = tuple{mkInt(64, 0), iface{t: errT, v: Str{Opaque: true, OTag: "parse-error"}}}
+	}
+	m.stubMemo[key] = res
+	return res
 }
 
 // (time.Time).Sub for wall-clock times without monotonic reading and with
